@@ -182,7 +182,7 @@ VARIANTS = [
     V("C11", "unparse round trip", GEN, "<<unparse>>", "", None),
     # ------------------------------------------------------------------ C10
     V("C10", "stub written under cwd", GS, "        file_path = Path(corrected_module_dir / f\"{public_module_name}.sdsstub\")\n        Path(file_path).touch()", "        file_path = Path(Path.cwd() / f\"{public_module_name}.sdsstub\")\n        Path(file_path).touch()", "C10.WRITE-SINKS"),
-    V("C10", "module stubs appended", GS, "        with file_path.open(\"w\", encoding=\"utf-8\") as f:\n            f.write(module_text)\n\n    created_module_paths", "        with file_path.open(\"a\", encoding=\"utf-8\") as f:\n            f.write(module_text)\n\n    created_module_paths", "C10.WRITE-MODE"),
+    V("C10", "module stubs appended", GS, "        with file_path.open(\"w\", encoding=\"utf-8\") as f:\n            f.write(module_text)\n\n        # The stub of a module", "        with file_path.open(\"a\", encoding=\"utf-8\") as f:\n            f.write(module_text)\n\n        # The stub of a module", "C10.WRITE-MODE"),
     V("C10", "placeholder appended whenever file exists", GS, "    if Path.exists(file_path) and not first_creation:", "    if Path.exists(file_path):", "C10.WRITE-MODE"),
     V("C10", "created paths not threaded", GS, "        created_module_paths = _create_outside_package_class(class_, out_path, naming_convention, created_module_paths)", "        _create_outside_package_class(class_, out_path, naming_convention, set())", "C10.WRITE-MODE"),
     V("C10", "api file named after package", "api_analyzer/cli/_cli.py", 'out_file_api = out_dir_path.joinpath(f"{src_dir_path.name}__api.json")', 'out_file_api = out_dir_path.joinpath(f"{api.package}__api.json")', "C10.API-NAME"),
